@@ -87,7 +87,9 @@ Fixpoint vwf (t : ty) (v : val) {struct t} : bool :=
   | TCase d' p r => match v with
                     | VEnum d q => if d =? d' then vwf p q else vwf r v
                     | _ => true end
-  | TMap k x => map_ok VNil v && all_entries (vwf k) (vwf x) v
+  | TMap _ k x => map_ok VNil v && all_entries (vwf k) (vwf x) v
+  | TDefault _ p => match v with VEnum _ q => vwf p q | _ => true end
+  | TDep a f => match v with VCons x y => vwf a x && vwf (f x) y | _ => true end
   | TLeafIndex => match v with VU n => n <=? max_leaf_index | _ => true end
   | _ => true
   end.
@@ -104,7 +106,7 @@ Proof. destruct w; [congruence|]. cbn [be_bytes]. discriminate. Qed.
 
 Lemma nonempty_sound t : forall v bs, nonempty t = true -> encode t v = Some bs -> bs <> [].
 Proof.
-  induction t; intros v bs Hn He; cbn [nonempty] in Hn; cbn [encode] in He; try discriminate.
+  induction t as [w| | |n|t IHt|t IHt| |t1 IHt1 t2 IHt2|w t IHt|d t1 IHt1 t2 IHt2| | |o t1 IHt1 t2 IHt2|m t IHt|t IHt f IHf]; intros v bs Hn He; cbn [nonempty] in Hn; cbn [encode] in He; try discriminate.
   - destruct v; try discriminate. destruct (n <? 256 ^ N.of_nat w); [|discriminate].
     inversion He; subst. apply be_bytes_nonempty. destruct w; [discriminate|lia].
   - destruct v; try discriminate. inversion He. discriminate.
@@ -125,6 +127,9 @@ Proof.
     destruct (be_bytes w d); [congruence|discriminate].
   - destruct v; try discriminate. destruct (n <? 256 ^ 4); [|discriminate]. inversion He. discriminate.
   - destruct (enc_entries (encode t1) (encode t2) v); [|discriminate]. cbn [obind] in He. eapply with_len_nonempty; eassumption.
+  - destruct v; try discriminate.
+    destruct (encode t v1) as [ea|] eqn:E1; [|discriminate]. destruct (encode (f v1) v2) as [eb|] eqn:E2; [|discriminate].
+    cbn [obind] in He. inversion He; subst. specialize (IHt _ _ Hn E1). destruct ea; [congruence|discriminate].
 Qed.
 
 (* ---- loops: round trip ---- *)
@@ -194,10 +199,14 @@ Definition rt_chain (t : ty) : Prop :=
   forall d p bs rest, vwf t (VEnum d p) = true -> encode t (VEnum d p) = Some bs ->
                       decode t (Some d) (bs ++ rest) = DOk (VEnum d p, rest).
 
-Lemma roundtrip_both t : (wfg false t = true -> rt_type t) /\ (wfg true t = true -> rt_chain t).
+Ltac ind_ty t :=
+  induction t as [w| | |n|t IHt|t IHt| |t1 IHt1 t2 IHt2|w t IHt|d t1 IHt1 t2 IHt2| | |o t1 IHt1 t2 IHt2|m t IHt|t IHt f IHf].
+
+Lemma roundtrip_both t : (wfP false t -> rt_type t) /\ (wfP true t -> rt_chain t).
 Proof.
-  induction t; (split; [intros W v bs rest Hv He | intros W d0 p0 bs rest Hv He]);
-    cbn [wfg] in W; try discriminate; cbn [encode] in He; cbn [decode].
+  ind_ty t; (split; [intros W v bs rest Hv He | intros W d0 p0 bs rest Hv He]);
+    cbn [wfP] in W; try discriminate; try (destruct W as [W _]; discriminate);
+    cbn [encode] in He; cbn [decode].
   - (* TU *) destruct v; try discriminate. destruct (N.ltb_spec n (256 ^ N.of_nat w)); [|discriminate].
     inversion He; subst. rewrite decode_uint_encode by assumption. reflexivity.
   - (* TBool *) destruct v; try discriminate. inversion He; subst.
@@ -205,7 +214,7 @@ Proof.
   - (* TBytes *) destruct v; try discriminate. rewrite (split_with_len _ _ _ He). reflexivity.
   - (* TArr *) destruct v; try discriminate. destruct (Nat.eqb (length l) n) eqn:E; [|discriminate].
     inversion He; subst. apply Nat.eqb_eq in E. subst n. rewrite take_n_app. reflexivity.
-  - (* TVec *) apply andb_true_iff in W. destruct W as [W1 W2]. cbn [negb andb] in W1.
+  - (* TVec *) destruct W as (_ & W1 & W2).
     destruct (enc_items (encode t) v) as [body|] eqn:Eb; [|discriminate]. cbn [obind] in He.
     rewrite (split_with_len _ _ _ He). cbn [dbind]. cbn [vwf] in Hv.
     rewrite vec_loop_roundtrip with (enc := encode t) (ok := vwf t) (v := v); try assumption.
@@ -214,25 +223,25 @@ Proof.
     + intros x a Ha. eapply nonempty_sound; eassumption.
     + apply is_chain_nil.
     + lia.
-  - (* TOpt *) destruct v; try discriminate.
+  - (* TOpt *) destruct W as (_ & W). destruct v; try discriminate.
     + inversion He; subst. reflexivity.
     + destruct (encode t v) as [a|] eqn:Ea; [|discriminate]. cbn [obind] in He. inversion He; subst.
       cbn [app]. unfold decode_uint. cbn [take_n length Nat.leb firstn skipn be_value dbind].
       change (0 * 256 + 1 =? 0) with false. change (0 * 256 + 1 =? 1) with true. cbv iota.
       cbn [vwf] in Hv. rewrite (proj1 IHt W v a rest Hv Ea). reflexivity.
   - (* TUnit *) destruct v; try discriminate. inversion He; subst. reflexivity.
-  - (* TPair *) apply andb_true_iff in W. destruct W as [W1 W2]. cbn [negb andb] in W1.
+  - (* TPair *) destruct W as (_ & W1 & W2).
     destruct v; try discriminate.
     destruct (encode t1 v1) as [ea|] eqn:E1; [|discriminate]. destruct (encode t2 v2) as [eb|] eqn:E2; [|discriminate].
     cbn [obind] in He. inversion He; subst. cbn [vwf] in Hv. apply andb_true_iff in Hv. destruct Hv as [Hv1 Hv2].
     rewrite <- app_assoc. rewrite (proj1 IHt1 W1 _ _ _ Hv1 E1). cbn [dbind].
     rewrite (proj1 IHt2 W2 _ _ _ Hv2 E2). reflexivity.
-  - (* TEnum *) cbn [negb andb] in W. destruct v; try discriminate.
+  - (* TEnum *) destruct W as (_ & W). destruct v; try discriminate.
     destruct (N.ltb_spec d (256 ^ N.of_nat w)); [|discriminate].
     destruct (encode t (VEnum d v)) as [pb|] eqn:Ep; [|discriminate]. cbn [obind] in He. inversion He; subst.
     rewrite <- app_assoc, decode_uint_encode by assumption. cbn [dbind]. cbn [vwf] in Hv.
     apply (proj2 IHt W); assumption.
-  - (* TCase, chain mode *) apply andb_true_iff in W. destruct W as [W1 W3]. cbn [andb] in W1.
+  - (* TCase, chain mode *) destruct W as (_ & W1 & W3).
     cbn [vwf] in Hv. destruct (N.eqb_spec d0 d).
     + rewrite (proj1 IHt1 W1 _ _ _ Hv He). reflexivity.
     + apply (proj2 IHt2 W3); assumption.
@@ -240,8 +249,7 @@ Proof.
     injection He as E. rewrite <- E.
     match goal with |- dbind ?X _ = _ => change X with (decode_uint 4 (be_bytes 4 n ++ rest)) end.
     rewrite decode_uint_encode by assumption. cbn [dbind]. cbn [vwf] in Hv. rewrite Hv. reflexivity.
-  - (* TMap *) apply andb_true_iff in W. destruct W as [W W3]. apply andb_true_iff in W. destruct W as [W1 W2].
-    cbn [negb andb] in W1.
+  - (* TMap *) destruct W as (_ & W1 & W2 & W3).
     destruct (enc_entries (encode t1) (encode t2) v) as [body|] eqn:Eb; [|discriminate]. cbn [obind] in He.
     rewrite (split_with_len _ _ _ He). cbn [dbind]. cbn [vwf] in Hv. apply andb_true_iff in Hv. destruct Hv as [Hm Ha].
     rewrite map_loop_roundtrip with (enck := encode t1) (encv := encode t2) (okk := vwf t1) (okv := vwf t2) (v := v); try assumption.
@@ -251,10 +259,17 @@ Proof.
     + intros x a Hea. eapply nonempty_sound; eassumption.
     + apply is_chain_nil.
     + lia.
+  - (* TDefault, chain mode *) destruct W as (_ & W). cbn [vwf] in Hv.
+    destruct (m <=? d0); [|discriminate]. rewrite (proj1 IHt W _ _ _ Hv He). reflexivity.
+  - (* TDep *) destruct W as (_ & W1 & W2). destruct v; try discriminate.
+    destruct (encode t v1) as [ea|] eqn:E1; [|discriminate]. destruct (encode (f v1) v2) as [eb|] eqn:E2; [|discriminate].
+    cbn [obind] in He. inversion He; subst. cbn [vwf] in Hv. apply andb_true_iff in Hv. destruct Hv as [Hv1 Hv2].
+    rewrite <- app_assoc. rewrite (proj1 IHt W1 _ _ _ Hv1 E1). cbn [dbind].
+    rewrite (proj1 (IHf v1) (W2 v1) _ _ _ Hv2 E2). reflexivity.
 Qed.
 
 Theorem roundtrip t v bs rest :
-  wf t = true -> vwf t v = true -> encode t v = Some bs -> decode t None (bs ++ rest) = DOk (v, rest).
+  wf t -> vwf t v = true -> encode t v = Some bs -> decode t None (bs ++ rest) = DOk (v, rest).
 Proof. intros W. apply (proj1 (roundtrip_both t) W). Qed.
 
 (* ================= exact length ================= *)
@@ -295,7 +310,7 @@ Qed.
 
 Theorem size_exact t : forall v bs, encode t v = Some bs -> size t v = N.of_nat (length bs).
 Proof.
-  induction t; intros v bs He; cbn [encode] in He; cbn [size]; try discriminate.
+  ind_ty t; intros v bs He; cbn [encode] in He; cbn [size]; try discriminate.
   - destruct v; try discriminate. destruct (n <? 256 ^ N.of_nat w); [|discriminate].
     inversion He; subst. rewrite be_bytes_length. reflexivity.
   - destruct v; try discriminate. inversion He. reflexivity.
@@ -322,6 +337,10 @@ Proof.
     change 4 with (N.of_nat (length (be_bytes 4 n))). reflexivity.
   - destruct (enc_entries (encode t1) (encode t2) v) as [body|] eqn:Eb; [|discriminate]. cbn [obind] in He.
     rewrite (with_len_size _ _ He). rewrite (size_entries_exact _ _ _ _ _ _ IHt1 IHt2 Eb). reflexivity.
+  - destruct v; try discriminate. destruct (m <=? d); [|discriminate]. apply IHt. assumption.
+  - destruct v; try discriminate.
+    destruct (encode t v1) as [ea|] eqn:E1; [|discriminate]. destruct (encode (f v1) v2) as [eb|] eqn:E2; [|discriminate].
+    cbn [obind] in He. inversion He; subst. rewrite app_length, Nnat.Nat2N.inj_add, (IHt _ _ E1), (IHf _ _ _ E2). reflexivity.
 Qed.
 
 (* ================= decoding consumes a prefix, never runs out of fuel ================= *)
@@ -374,7 +393,7 @@ Lemma decode_len_fuel t : forall disc bs,
   (forall v r, decode t disc bs = DOk (v, r) -> (length r <= length bs)%nat)
   /\ decode t disc bs <> DErr EOutOfFuel.
 Proof.
-  induction t; intros disc bs; cbn [decode].
+  ind_ty t; intros disc bs; cbn [decode].
   - destruct (decode_uint w bs) as [[n r]|e] eqn:E; cbn [dbind]; split; try discriminate.
     + intros v r' H. inversion H; subst. eapply decode_uint_len; eassumption.
     + unfold decode_uint in E. destruct (take_n w bs) as [[? ?]|]; inversion E. discriminate.
@@ -448,6 +467,15 @@ Proof.
       destruct (take_n _ r0) as [[? ?]|]; cbn [dbind] in E; [|inversion E].
       destruct (varint_len _ =? _); cbn [dbind] in E; [|inversion E].
       destruct (take_n _ l0) as [[? ?]|]; inversion E.
+  - destruct disc as [d0|]; [|split; discriminate].
+    destruct (decode t None bs) as [[p r]|e] eqn:E1; cbn [dbind]; split; try discriminate.
+    + intros v r' H. inversion H; subst. apply (proj1 (IHt None bs)) in E1. assumption.
+    + intro H. inversion H; subst. apply (proj2 (IHt None bs) E1).
+  - destruct (decode t None bs) as [[x r]|e] eqn:E1; cbn [dbind].
+    + destruct (decode (f x) None r) as [[y r']|e] eqn:E2; cbn [dbind]; split; try discriminate.
+      * intros v r'' H. inversion H; subst. apply (proj1 (IHt None bs)) in E1. apply (proj1 (IHf x None r)) in E2. lia.
+      * intro H. inversion H; subst. apply (proj2 (IHf x None r) E2).
+    + split; [discriminate|]. intro H. inversion H; subst. apply (proj2 (IHt None bs) E1).
 Qed.
 
 Theorem decode_consumes t disc bs v r : decode t disc bs = DOk (v, r) -> (length r <= length bs)%nat.
@@ -484,6 +512,32 @@ Proof.
   intro H. cbn [be_bytes]. change (N.of_nat 0) with 0. rewrite N.pow_0_r, N.div_1_r, N.mod_small by assumption. reflexivity.
 Qed.
 
+Section MapCanon.
+  Variables (enck encv : val -> option (list N)) (deck decv : list N -> dres (val * list N)).
+  Hypothesis Hck : forall bs x r, bytes_ok bs -> deck bs = DOk (x, r) -> exists a, enck x = Some a /\ bs = a ++ r.
+  Hypothesis Hcv : forall bs x r, bytes_ok bs -> decv bs = DOk (x, r) -> exists a, encv x = Some a /\ bs = a ++ r.
+
+  Lemma map_loop_canon fuel : forall data acc items,
+    is_chain acc -> bytes_ok data -> map_loop deck decv fuel data acc = DOk items ->
+    exists v, items = vcat acc v /\ enc_entries enck encv v = Some data.
+  Proof.
+    induction fuel; intros data acc items Hc Hok H; destruct data as [|b data]; cbn [map_loop] in H; try discriminate.
+    - inversion H; subst. exists VNil. split; [symmetry; exact Hc|reflexivity].
+    - inversion H; subst. exists VNil. split; [symmetry; exact Hc|reflexivity].
+    - destruct (deck (b :: data)) as [[k d1]|e] eqn:E; cbn [dbind] in H; [|discriminate].
+      destruct (decv d1) as [[x d2]|e] eqn:E2; cbn [dbind] in H; [|discriminate].
+      destruct (Nat.eqb (length d2) (length (b :: data)) || map_has_key k acc); [discriminate|].
+      destruct (Hck _ _ _ Hok E) as (a & Ha & Hs).
+      assert (Hok1 : bytes_ok d1) by (rewrite Hs in Hok; apply bytes_ok_app in Hok; tauto).
+      destruct (Hcv _ _ _ Hok1 E2) as (a2 & Ha2 & Hs2).
+      assert (Hok2 : bytes_ok d2) by (rewrite Hs2 in Hok1; apply bytes_ok_app in Hok1; tauto).
+      destruct (IHfuel d2 (vsnoc acc (VCons k x)) items (is_chain_vsnoc _ _ Hc) Hok2 H) as (v & Hv & Hev).
+      exists (VCons (VCons k x) v). split.
+      + rewrite Hv, vcat_vsnoc. reflexivity.
+      + cbn [enc_entries]. rewrite Ha, Ha2, Hev. cbn [obind]. rewrite Hs, Hs2. reflexivity.
+  Qed.
+End MapCanon.
+
 Definition canon_type (t : ty) : Prop :=
   forall bs v r, bytes_ok bs -> decode t None bs = DOk (v, r) ->
                  exists used, encode t v = Some used /\ bs = used ++ r.
@@ -491,11 +545,18 @@ Definition canon_chain (t : ty) : Prop :=
   forall d bs v r, bytes_ok bs -> decode t (Some d) bs = DOk (v, r) ->
                    exists p used, v = VEnum d p /\ encode t v = Some used /\ bs = used ++ r.
 
-Lemma canonical_both t : canonical t = true ->
-  (wfg false t = true -> canon_type t) /\ (wfg true t = true -> canon_chain t).
+Lemma with_len_data_ok d used r : with_len d = Some used -> bytes_ok (used ++ r) -> bytes_ok d.
 Proof.
-  induction t; intro C; cbn [canonical] in C; try discriminate;
-    (split; [intros W bs v r Hok H | intros W d0 bs v r Hok H]); cbn [wfg] in W; try discriminate; cbn [decode] in H.
+  unfold with_len. destruct (encode_varint _) as [h|]; [|discriminate]. cbn [obind]. intro Hu. inversion Hu; subst.
+  intro Hok. apply bytes_ok_app in Hok. destruct Hok as [Hok _]. apply bytes_ok_app in Hok. tauto.
+Qed.
+
+Lemma canonical_both t : canonicalP t ->
+  (wfP false t -> canon_type t) /\ (wfP true t -> canon_chain t).
+Proof.
+  ind_ty t; intro C; cbn [canonicalP] in C; try contradiction;
+    (split; [intros W bs v r Hok H | intros W d0 bs v r Hok H]); cbn [wfP] in W;
+    try discriminate; try (destruct W as [W _]; discriminate); cbn [decode] in H.
   - (* TU *) destruct (decode_uint w bs) as [[n r']|] eqn:E; cbn [dbind] in H; [|discriminate]. inversion H; subst.
     destruct (decode_uint_canon _ _ _ _ Hok E) as [-> Hn]. exists (be_bytes w n). cbn [encode].
     destruct (N.ltb_spec n (256 ^ N.of_nat w)); [|lia]. split; reflexivity.
@@ -503,39 +564,36 @@ Proof.
     destruct (split_canon _ _ _ Hok E) as (used & Hu & ->). exists used. split; [exact Hu|reflexivity].
   - (* TArr *) destruct (take_n n bs) as [[h r']|] eqn:E; [|discriminate]. inversion H; subst.
     apply take_n_spec in E. destruct E as [-> L]. exists h. cbn [encode]. rewrite L, Nat.eqb_refl. split; reflexivity.
-  - (* TVec *) apply andb_true_iff in W. destruct W as [W1 W2].
+  - (* TVec *) destruct W as (_ & W1 & W2).
     destruct (split_collection bs) as [[d r']|] eqn:E; cbn [dbind] in H; [|discriminate].
     destruct (vec_loop (decode t None) (length d) d VNil) as [items|] eqn:L; cbn [dbind] in H; [|discriminate].
     inversion H; subst. destruct (split_canon _ _ _ Hok E) as (used & Hu & ->).
-    assert (Hd : bytes_ok d).
-    { unfold with_len in Hu. destruct (encode_varint _) as [h|]; [|discriminate]. cbn [obind] in Hu. inversion Hu; subst.
-      apply bytes_ok_app in Hok. destruct Hok as [Hok _]. apply bytes_ok_app in Hok. tauto. }
+    assert (Hd : bytes_ok d) by (eapply with_len_data_ok; eassumption).
     destruct (vec_loop_canon (encode t) (decode t None)) with (fuel := length d) (data := d) (acc := VNil) (items := v)
       as (v' & Hv & Hev); try assumption.
     + intros bs0 x r0 Hb Hdec. apply (proj1 (IHt C) W2 bs0 x r0 Hb Hdec).
     + apply is_chain_nil.
     + cbn [vcat] in Hv. subst v'. exists used. cbn [encode]. rewrite Hev. cbn [obind]. split; [exact Hu|reflexivity].
-  - (* TOpt *) cbn [negb andb] in W.
-    destruct (decode_uint 1 bs) as [[m r']|] eqn:E; cbn [dbind] in H; [|discriminate].
+  - (* TOpt *) destruct W as (_ & W).
+    destruct (decode_uint 1 bs) as [[m0 r']|] eqn:E; cbn [dbind] in H; [|discriminate].
     destruct (decode_uint_canon _ _ _ _ Hok E) as [-> Hm]. change (256 ^ N.of_nat 1) with 256 in Hm.
     rewrite be_bytes_1 in * by assumption.
-    destruct (N.eqb_spec m 0).
+    destruct (N.eqb_spec m0 0).
     + inversion H; subst. exists [0]. split; reflexivity.
-    + destruct (N.eqb_spec m 1); [|discriminate]. subst m.
+    + destruct (N.eqb_spec m0 1); [|discriminate]. subst m0.
       destruct (decode t None r') as [[x r'']|] eqn:E2; cbn [dbind] in H; [|discriminate]. inversion H; subst.
       assert (Hr : bytes_ok r') by (apply bytes_ok_app in Hok; tauto).
       destruct (proj1 (IHt C) W _ _ _ Hr E2) as (used & Hu & ->).
       exists (1 :: used). cbn [encode]. rewrite Hu. cbn [obind]. split; reflexivity.
   - (* TUnit *) inversion H; subst. exists []. split; reflexivity.
-  - (* TPair *) apply andb_true_iff in C. destruct C as [C1 C2].
-    apply andb_true_iff in W. destruct W as [W1 W2]. cbn [negb andb] in W1.
+  - (* TPair *) destruct C as [C1 C2]. destruct W as (_ & W1 & W2).
     destruct (decode t1 None bs) as [[x r1]|] eqn:E1; cbn [dbind] in H; [|discriminate].
     destruct (decode t2 None r1) as [[y r2]|] eqn:E2; cbn [dbind] in H; [|discriminate]. inversion H; subst.
     destruct (proj1 (IHt1 C1) W1 _ _ _ Hok E1) as (u1 & Hu1 & ->).
     assert (Hr : bytes_ok r1) by (apply bytes_ok_app in Hok; tauto).
     destruct (proj1 (IHt2 C2) W2 _ _ _ Hr E2) as (u2 & Hu2 & ->).
     exists (u1 ++ u2). cbn [encode]. rewrite Hu1, Hu2. cbn [obind]. rewrite app_assoc. split; reflexivity.
-  - (* TEnum *) cbn [negb andb] in W.
+  - (* TEnum *) destruct W as (_ & W).
     destruct (decode_uint w bs) as [[d r']|] eqn:E; cbn [dbind] in H; [|discriminate].
     destruct (decode_uint_canon _ _ _ _ Hok E) as [-> Hd].
     assert (Hr : bytes_ok r') by (apply bytes_ok_app in Hok; tauto).
@@ -543,8 +601,7 @@ Proof.
     exists (be_bytes w d ++ used). cbn [encode].
     destruct (N.ltb_spec d (256 ^ N.of_nat w)); [|lia]. rewrite Hu. cbn [obind].
     rewrite app_assoc. split; reflexivity.
-  - (* TCase *) apply andb_true_iff in C. destruct C as [C1 C2].
-    apply andb_true_iff in W. destruct W as [W1 W3]. cbn [andb] in W1.
+  - (* TCase *) destruct C as [C1 C2]. destruct W as (_ & W1 & W3).
     destruct (N.eqb_spec d0 d).
     + subst d0. destruct (decode t1 None bs) as [[p r1]|] eqn:E1; cbn [dbind] in H; [|discriminate]. inversion H; subst.
       destruct (proj1 (IHt1 C1) W1 _ _ _ Hok E1) as (used & Hu & ->).
@@ -557,20 +614,61 @@ Proof.
     destruct (decode_uint_canon _ _ _ _ Hok E) as [-> Hn]. exists (be_bytes 4 n). cbn [encode].
     change (256 ^ N.of_nat 4) with (256 ^ 4) in Hn.
     destruct (N.ltb_spec n (256 ^ 4)); [|lia]. split; reflexivity.
+  - (* TMap, ordered *) destruct C as (_ & C1 & C2). destruct W as (_ & W1 & W2 & W3).
+    destruct (split_collection bs) as [[d r']|] eqn:E; cbn [dbind] in H; [|discriminate].
+    destruct (map_loop (decode t1 None) (decode t2 None) (length d) d VNil) as [items|] eqn:L; cbn [dbind] in H; [|discriminate].
+    inversion H; subst. destruct (split_canon _ _ _ Hok E) as (used & Hu & ->).
+    assert (Hd : bytes_ok d) by (eapply with_len_data_ok; eassumption).
+    destruct (map_loop_canon (encode t1) (encode t2) (decode t1 None) (decode t2 None))
+      with (fuel := length d) (data := d) (acc := VNil) (items := v) as (v' & Hv & Hev); try assumption.
+    + intros bs0 x r0 Hb Hdec. apply (proj1 (IHt1 C1) W2 bs0 x r0 Hb Hdec).
+    + intros bs0 x r0 Hb Hdec. apply (proj1 (IHt2 C2) W3 bs0 x r0 Hb Hdec).
+    + apply is_chain_nil.
+    + cbn [vcat] in Hv. subst v'. exists used. cbn [encode]. rewrite Hev. cbn [obind]. split; [exact Hu|reflexivity].
+  - (* TDefault *) destruct C as [-> C]. destruct W as (_ & W).
+    destruct (decode t None bs) as [[p r1]|] eqn:E1; cbn [dbind] in H; [|discriminate]. inversion H; subst.
+    destruct (proj1 (IHt C) W _ _ _ Hok E1) as (used & Hu & ->).
+    exists p, used. cbn [encode]. destruct (N.leb_spec 0 d0); [|lia]. split; [reflexivity|]. split; [exact Hu|reflexivity].
+  - (* TDep *) destruct C as [C1 C2]. destruct W as (_ & W1 & W2).
+    destruct (decode t None bs) as [[x r1]|] eqn:E1; cbn [dbind] in H; [|discriminate].
+    destruct (decode (f x) None r1) as [[y r2]|] eqn:E2; cbn [dbind] in H; [|discriminate]. inversion H; subst.
+    destruct (proj1 (IHt C1) W1 _ _ _ Hok E1) as (u1 & Hu1 & ->).
+    assert (Hr : bytes_ok r1) by (apply bytes_ok_app in Hok; tauto).
+    destruct (proj1 (IHf x (C2 x)) (W2 x) _ _ _ Hr E2) as (u2 & Hu2 & ->).
+    exists (u1 ++ u2). cbn [encode]. rewrite Hu1, Hu2. cbn [obind]. rewrite app_assoc. split; reflexivity.
 Qed.
 
 (* a decoded value of a canonical type re-encodes to exactly the bytes that were consumed *)
 Theorem decode_canonical t bs v r :
-  wf t = true -> canonical t = true -> bytes_ok bs -> decode t None bs = DOk (v, r) ->
+  wf t -> canonicalP t -> bytes_ok bs -> decode t None bs = DOk (v, r) ->
   exists used, encode t v = Some used /\ bs = used ++ r.
 Proof. intros W C. apply (proj1 (canonical_both t C) W). Qed.
 
 (* two different values never have encodings one of which is a prefix of the other *)
 Theorem unique_decoding t v1 v2 b1 b2 r1 r2 :
-  wf t = true -> vwf t v1 = true -> vwf t v2 = true ->
+  wf t -> vwf t v1 = true -> vwf t v2 = true ->
   encode t v1 = Some b1 -> encode t v2 = Some b2 -> b1 ++ r1 = b2 ++ r2 -> v1 = v2 /\ r1 = r2.
 Proof.
   intros W H1 H2 E1 E2 Heq.
   pose proof (roundtrip t v1 b1 r1 W H1 E1) as D1. pose proof (roundtrip t v2 b2 r2 W H2 E2) as D2.
   rewrite Heq in D1. rewrite D1 in D2. inversion D2. split; reflexivity.
+Qed.
+
+(* boolean checks used on the generated table imply the Prop versions *)
+Lemma wfb_wfP t : forall c, wfb c t = true -> wfP c t.
+Proof.
+  ind_ty t; intros c H; cbn [wfb] in H; cbn [wfP]; try discriminate;
+    repeat match goal with
+    | H : _ && _ = true |- _ => apply andb_true_iff in H; destruct H
+    | H : negb ?c = true |- _ => apply negb_true_iff in H
+    end; repeat split; auto.
+Qed.
+
+Lemma canonicalb_canonicalP t : canonicalb t = true -> canonicalP t.
+Proof.
+  ind_ty t; intro H; cbn [canonicalb] in H; cbn [canonicalP]; try discriminate;
+    repeat match goal with
+    | H : _ && _ = true |- _ => apply andb_true_iff in H; destruct H
+    end; repeat split; auto.
+  apply N.eqb_eq. assumption.
 Qed.
